@@ -317,10 +317,84 @@ func cfgsC01(c *vk.Ctx) []HubCfg {
 // C01 — CRL soundness.
 func C01(c *vk.Ctx) {
 	hubCampaign(c, cfgsC01(c), c.Pick(1600, 40000), allDownEdges, 60, predC01)
+	c.Add("traces_validated_against_impl", int64(c01LoadDuringFailingPass(c)))
 	c.Set("spec", "Revocation.tla: Sound (action property) + Refines/Complete (invariants), complete graph per configuration; every listed property of the module is checked by TLC before the graph is replayed")
 	c.Set("rule", "a case is one edge (state, action incl. the documents served) of a configuration's Revocation graph executed on a real validator; distinct = distinct (cfg, state, action); the violation predicate is: ghost says listed-in-force AND real verdict = accept")
 	c.Assume("document bytes inside a shape class (size/position/serial width/entry extensions/encoding) are seeded samples; the 'big' size class (20 000 entries) is exercised in the thorough tier only")
 	c.Assume("connection-refused origins are sampled sparsely (each costs the loader's 2 s retry loop)")
+}
+
+// c01LoadDuringFailingPass: the list of a certificate's own distribution point is taken in by the handshake that presents the
+// certificate, and that handshake is not alone in the process: while its transfer is under way a refresh pass runs and fails for
+// another location (a configured URL that serves an error page). When the transfer completes the list is valid, correctly signed and
+// names the certificate: the handshake is refused. (A pass that has to wait for the entry of the list in transfer waits; the
+// order in which a pass visits its locations is not fixed, so the experiment is repeated.)
+func c01LoadDuringFailingPass(c *vk.Ctx) int {
+	n := 0
+	for round := 0; round < c.Pick(6, 40) && c.Violations() <= 6; round++ {
+		disk := round%2 == 0
+		org := origin.New()
+		ca := pki.NewCA(pki.CAOpts{Name: "Busy CA", Serial: 1100})
+		serial := big.NewInt(int64(1101 + round))
+		leaf := ca.Leaf(pki.LeafOpts{CN: "busy leaf", Serial: serial, CDP: []string{org.URL + "/cdp/busy.crl"}})
+		sh := Shape{Size: "s300", Pos: []string{"first", "middle", "last"}[round%3], Width: "w8", Ext: "none", Enc: []string{"der", "pem"}[round%2]}
+		release := make(chan struct{})
+		arrived := make(chan struct{}, 8)
+		org.Set("/cdp/busy.crl", origin.Behaviour{Kind: "gated", Body: BuildCRL(CRLSpec{Signer: ca, Listed: []*big.Int{serial}, Number: 7}, sh), Gate: func() {
+			arrived <- struct{}{}
+			select {
+			case <-release:
+			case <-time.After(60 * time.Second):
+			}
+		}})
+		org.SetBody("/conf/other.crl", ca.SimpleCRL(3, 999001))
+		tf, _ := os.CreateTemp("", "verif.busy-ca-*.pem")
+		tf.Write(pki.PEMCert(ca.Cert))
+		tf.Close()
+		defer os.Remove(tf.Name())
+		w, err := world.New(world.Cfg{Mode: "crl_only", Storage: backendName(disk), Sig: []string{"verify", "none"}[(round/2)%2], Fetch: "fetch_actively", Interval: "1h", CRLUrls: []string{org.URL + "/conf/other.crl"}, Trusted: []string{tf.Name()}})
+		if err != nil {
+			c.Infra("world: %v", err)
+		}
+		if err := w.Provision(); err != nil {
+			c.Infra("provision with a valid configured CRL: %v", err)
+		}
+		org.Set("/conf/other.crl", origin.Behaviour{Kind: "status", Code: 503, Body: []byte("<html>temporarily unavailable</html>")})
+		res := make(chan world.Result, 1)
+		go func() { res <- w.HandshakeTimeout(pki.Chain(leaf.Cert, ca), 120*time.Second) }()
+		select {
+		case <-arrived:
+		case <-time.After(30 * time.Second):
+			c.Drift("busy-load:transfer-never-started")
+			close(release)
+			w.Destroy()
+			org.Close()
+			continue
+		}
+		passDone := make(chan struct{})
+		go func() { defer close(passDone); w.RefreshAll() }()
+		select {
+		case <-passDone: // the pass came to its end without waiting for the entry in transfer
+		case <-time.After(400 * time.Millisecond): // ... or it waits for it
+		}
+		close(release)
+		r := <-res
+		select {
+		case <-passDone:
+		case <-time.After(120 * time.Second):
+			c.Drift("busy-load:pass-never-returned")
+		}
+		n++
+		c.Eval(fmt.Sprintf("busy-load|%s|%d", backendName(disk), round%3))
+		if r.Verdict == "accept" {
+			c.Violation(fmt.Sprintf("%s:listed-certificate-accepted:first-load-overlapped-by-a-failing-pass", backendName(disk)),
+				"the certificate is listed in the valid, correctly signed CRL of its own distribution point; its handshake downloaded that CRL while a refresh pass failed for another location - and the certificate was accepted",
+				map[string]any{"backend": backendName(disk), "round": round, "shape": sh, "handshake": r, "signature_validation_mode": w.Cfg.Sig})
+		}
+		w.Destroy()
+		org.Close()
+	}
+	return n
 }
 
 // C11 — precision.
@@ -337,6 +411,7 @@ func C11(c *vk.Ctx) {
 	hubCampaign(c, cfgs, c.Pick(1600, 40000), allDownEdges, 60, predC11)
 	// a superseded list does not come back: passes over one CRL do not overlap (CrlRepo.tla has one loader process per entry)
 	c.Add("traces_validated_against_impl", int64(overlappingPasses(c, "C11")))
+	c.Add("traces_validated_against_impl", int64(staleBackgroundLoad(c, "C11")))
 	// the cross-issuer clause: only lists of the issuer itself and of the other CA are served, and the other CA's entries carry
 	// a certificateIssuer entry extension that names the probe's issuer
 	hubFocus(c, []HubCfg{
@@ -385,6 +460,76 @@ func C10(c *vk.Ctx) {
 	c.Add("traces_validated_against_impl", int64(c10FailedSwap(c)))
 	c.Set("spec", "Revocation.tla: StrictGate, LenientNeverDenies (action properties); CrlRepo.tla LSwapFault (a first load that fails at its last step is a failed load)")
 	c.Set("rule", "as C01; predicates: strict AND certificate names distribution points AND accepted AND ghost says that CRL is not in force => violation; lenient AND denied AND not listed AND OCSP accepted => violation; CDP sets: http (c1), ldap-only (c3), none (c2)")
+}
+
+// refreshThenStricterPaths: a list is taken in at the distribution point under the first configuration, a refresh replaces it by
+// a list of another signer (whatever the first configuration makes of it), the instance is restarted with the second configuration
+// and finds the origin gone. What the second configuration would never have accepted is not in force for it, whatever the first
+// instance stored next to it.
+func refreshThenStricterPaths(g *graph.Graph) [][]*graph.Edge {
+	var out [][]*graph.Edge
+	opOf := func(e *graph.Edge) []any {
+		var op []any
+		json.Unmarshal(e.Op, &op)
+		return op
+	}
+	same := func(a, b any) bool { x, _ := json.Marshal(a); y, _ := json.Marshal(b); return string(x) == string(y) }
+	cfgOf := func(state string) string {
+		var st struct {
+			Cfg HubCfg `json:"cfg"`
+		}
+		json.Unmarshal([]byte(state), &st)
+		return st.Cfg.String()
+	}
+	for _, p1 := range g.Out[g.Init] {
+		o1 := opOf(p1)
+		if o1[0] != "provision" {
+			continue
+		}
+		for _, h := range g.Out[p1.To] {
+			oh := opOf(h)
+			if oh[0] != "handshake" || oh[1] != "c1" || len(oh) < 3 || parseDoc(oh[2]).Q != "valid" || parseDoc(oh[2]).Signer != "A" {
+				continue
+			}
+			for _, r := range g.Out[h.To] {
+				or := opOf(r)
+				if or[0] != "refresh" {
+					continue
+				}
+				docs, _ := or[1].(map[string]any)
+				d := parseDoc(docs["D"])
+				if d.Q != "valid" || d.Signer == "A" {
+					continue
+				}
+				for _, cl := range g.Out[r.To] {
+					if opOf(cl)[0] != "cleanup" || cfgOf(cl.To) == cfgOf(cl.From) {
+						continue
+					}
+					for _, p2 := range g.Out[cl.To] {
+						o2 := opOf(p2)
+						if o2[0] != "provision" || !same(o1[1], o2[1]) {
+							continue
+						}
+						w := []*graph.Edge{p1, h, r, cl, p2}
+						cur := p2.To
+						for _, cert := range []string{"c1", "c2"} {
+							for _, h2 := range g.Out[cur] {
+								if o := opOf(h2); o[0] == "handshake" && o[1] == cert && len(o) >= 3 && parseDoc(o[2]).Q == "down" {
+									w = append(w, h2)
+									cur = h2.To
+									break
+								}
+							}
+						}
+						if len(w) > 5 {
+							out = append(out, w)
+						}
+					}
+				}
+			}
+		}
+	}
+	return out
 }
 
 // c10FailedSwap: "after failed loads" includes a load that fails at its very last step, when the storage layer refuses to put the
